@@ -31,7 +31,7 @@ func C13(r *core.Run) {
 	provRefs(r)
 	provEnumPrefix(r)
 	siblingCountChoices(r)
-	exportsOfThisPackageOnly(r) // an appended service or topic does not change what existing references resolve to
+	exportsOfThisPackageOnly(r)    // an appended service or topic does not change what existing references resolve to
 	subPackageFileNameInjective(r) // a declaration appended to one file does not replace the sub-package output of another
 }
 
